@@ -92,6 +92,10 @@ THEOREMS = [
     "OllamaVerif.C13.manifestsEnum_keys_injective",
     "OllamaVerif.C13.modelpath_print_parse",
     "OllamaVerif.C13.modelpath_print_parse_model",
+    "OllamaVerif.C13.clean_eq_render",
+    "OllamaVerif.C13.pathJoin_anyroot",
+    "OllamaVerif.C13.manifest_path_confined_anyroot",
+    "OllamaVerif.C13.blob_path_confined_anyroot",
     "OllamaVerif.Tie.C13.first_sets_match",
     "OllamaVerif.Tie.C13.rest_sets_match",
     "OllamaVerif.Tie.C13.length_limits_match",
@@ -260,7 +264,9 @@ def run(ctx):
         ctx.leanchecker(MODULES)
     ctx.assumptions += [
         "unix build: path separator '/', filepath.Clean/Join as modelled (differentially tested)",
-        "models directory is an absolute, clean path",
+        "models directory: any non-empty string for the legacy manifest / blob paths (manifest_path_confined_anyroot, "
+        "blob_path_confined_anyroot; envconfig.Var trims spaces and quotes before); an absolute clean path (CleanComp components, "
+        "e.g. /home/u/.ollama/models) for the new cache's theorems",
         "fs.Glob(manifests/*/*/*/*) returns manifests/ + four directory-entry names (GlobLink); link names may be any bytes",
     ]
     return ctx.finish(
